@@ -392,7 +392,8 @@ class Facts:
         self.inlined = None
         if NORMALISE:
             import inline
-            n = inline.rehome(self) if NORMALISE == "rehome" else inline.normalise(self, closures=(NORMALISE == "inline-closures"))
+            base = inline.renamed(self)          # undo renames first, in every view
+            n = inline.rehome(base) if NORMALISE == "rehome" else inline.normalise(base, closures=(NORMALISE == "inline-closures"))
             self.funcs = n.funcs
             self.inlined = n.inlined
             self._cg = None
